@@ -830,23 +830,39 @@ func genReuse(c *ctx, r *rand.Rand, hs []honestMsg, emit func(ev)) {
 		if len(vs) < 2 {
 			continue
 		}
-		v1, v2 := vs[0], vs[len(vs)-1]
-		garbage := append([]byte{}, v1[:len(v1)/2]...)
-		for _, bh := range behaviours {
-			steps := []any{}
-			for _, ch := range bh {
-				switch ch {
-				case 'M':
-					steps = append(steps, ev{"k": "M"})
-				case '1':
-					steps = append(steps, ev{"k": "U", "b": B(v1)})
-				case '2':
-					steps = append(steps, ev{"k": "U", "b": B(v2)})
-				case 'G':
-					steps = append(steps, ev{"k": "U", "b": B(garbage)})
+		pairs := [][2][]byte{{vs[0], vs[len(vs)-1]}}
+		// ... and with value 1 the EMPTIEST value of the kind (zero-length padded origin, empty element list, empty
+		// batch): what a reused object held before must not shine through an empty field
+		switch m {
+		case "inner":
+			pairs = append(pairs, [2][]byte{encodeVal(m, roundTrip(ev{"v": ev{"key_id": 7, "blinded": B(randBytes(r, 256)), "padded": B(nil)}})["v"]), vs[len(vs)-1]})
+		case "t5req":
+			pairs = append(pairs, [2][]byte{encodeVal(m, roundTrip(ev{"v": ev{"key_id": 7, "elems": []any{}}})["v"]), vs[len(vs)-1]})
+		case "batchreq":
+			pairs = append(pairs, [2][]byte{encodeVal(m, roundTrip(ev{"v": []any{}})["v"]), vs[len(vs)-1]})
+		}
+		for pi, pr := range pairs {
+			v1, v2 := pr[0], pr[1]
+			garbage := append([]byte{}, v2[:len(v2)/2]...)
+			for _, bh := range behaviours {
+				if pi > 0 && !strings.Contains(bh, "1") {
+					continue
 				}
+				steps := []any{}
+				for _, ch := range bh {
+					switch ch {
+					case 'M':
+						steps = append(steps, ev{"k": "M"})
+					case '1':
+						steps = append(steps, ev{"k": "U", "b": B(v1)})
+					case '2':
+						steps = append(steps, ev{"k": "U", "b": B(v2)})
+					case 'G':
+						steps = append(steps, ev{"k": "U", "b": B(garbage)})
+					}
+				}
+				emit(ev{"op": "Reuse", "m": m, "steps": steps, "behaviour": bh})
 			}
-			emit(ev{"op": "Reuse", "m": m, "steps": steps, "behaviour": bh})
 		}
 	}
 }
